@@ -988,14 +988,18 @@ func (h *history) run() {
 	}
 }
 
-
 // fanKeys returns a function from a branch byte to a key literal such that all 256 keys are siblings below one
 // inner node (nil when the kind has no such family for this variant).
+var fanLongPre = false // the next byte-string fan sits below a compressed path longer than the inline limit
+
 func fanKeys(spec string, r *rand.Rand) func(b int) string {
 	f := strings.Fields(spec)
 	switch f[0] {
 	case "alpha":
 		pre := pick(r, []string{"", "ab", strings.Repeat("p", 9), strings.Repeat("p", 10), strings.Repeat("p", 13)})
+		if fanLongPre {
+			pre = "L" + strings.Repeat("q", pick(r, []int{11, 13, 22, 258}))
+		}
 		tail := pick(r, []string{"", "x", "xy"})
 		return func(b int) string {
 			if b == 0 {
@@ -1165,6 +1169,18 @@ func (h *history) runFan(key func(b int) string) {
 			p := unhex(key(1))
 			h.s.exec("seq", h.id, "prefix", hexLit(p[:len(p)-1-r.Intn(len(p))%len(p)]), "0", "1")
 		}
+		// updates through the node as it is now: an overwrite (nothing but the value changes), a delete and the
+		// same key again
+		if len(h.order) > 0 {
+			k := pick(r, h.order)
+			h.insert(k)
+			h.s.exec("size", h.id)
+			h.remove(k)
+			h.s.exec("size", h.id)
+			h.insert(k)
+			h.s.exec("size", h.id)
+			h.s.exec("get", h.id, k)
+		}
 	}
 	target := pick(r, []int{256, 256, 60, 49, 48, 17})
 	perm := r.Perm(256)
@@ -1246,7 +1262,6 @@ func (h *history) runFan(key func(b int) string) {
 	h.feat["phase:grow"], h.feat["phase:shrink"] = true, true
 	h.s.tr.stats["fan-histories"]++
 }
-
 
 // probeSweep looks up (and tries to delete) keys that differ from a stored key in exactly one byte, for every
 // byte position: absent keys that diverge inside, at the end of, or beyond a compressed path.
@@ -1458,6 +1473,13 @@ func runTreeMode(cfg treeRunCfg, tr *transcript) {
 					h.remove(h.order[len(h.order)-1])
 				}
 				h.runFan(fk)
+				if fam == "alpha" {
+					// and once more below a long compressed path
+					fanLongPre = true
+					fk2 := fanKeys(hc.spec, r)
+					fanLongPre = false
+					h.runFan(fk2)
+				}
 			} else {
 				tr.comment(fmt.Sprintf("history tree=%d spec=%q universe=%s ops=%d", nextID, hc.spec, h.uni[0].name, hc.ops))
 				tr.stats["uni:"+h.uni[0].name]++
